@@ -170,7 +170,7 @@ func (c04) Execute(sc *engine.Scenario) *engine.Result {
 			case "undefined":
 				res.Harness = mm.detail
 				return false
-			case "cycles", "buswrite-cycle":
+			case "cycles", "buswrite-cycle", "busread-cycle", "busread":
 				if kind != "dispatch" {
 					continue // instruction lengths are C02's, access cycles C03's
 				}
